@@ -52,9 +52,15 @@ fn call_print(args: &[Object]) -> Result<Object, Error> {
             format_str = format_str.replacen("{}", &replacement.to_string(), 1);
         }
 
+        #[cfg(feature = "verif")]
+        crate::verif::capture(&format_str);
+        #[cfg(not(feature = "verif"))]
         print!("{format_str}");
     }
 
+    #[cfg(feature = "verif")]
+    crate::verif::capture("\n");
+    #[cfg(not(feature = "verif"))]
     println!();
     Ok(Object::null())
 }
@@ -83,6 +89,13 @@ fn call_string(args: &[Object], gc: &mut GC) -> Result<Object, Error> {
     let t = match args[0].tag() {
         Type::Null => String::from(""),
         Type::Bool => args[0].as_bool().to_string(),
+        #[cfg(feature = "verif")]
+        Type::Float => unsafe {
+            let v = args[0].as_f64_unchecked();
+            crate::verif::log_float(crate::verif::FloatOracle::Show(v.to_bits(), v.to_string()));
+            v.to_string()
+        },
+        #[cfg(not(feature = "verif"))]
         Type::Float => unsafe { args[0].as_f64_unchecked().to_string() },
         Type::Int => args[0].as_int().to_string(),
         Type::String => return Ok(args[0]),
@@ -185,6 +198,16 @@ fn call_float(args: &[Object], gc: &mut GC) -> Result<Object, Error> {
         Type::Float => return Ok(args[0]),
         Type::Int => args[0].as_int() as f64,
         Type::String => unsafe {
+            #[cfg(feature = "verif")]
+            crate::verif::log_float(crate::verif::FloatOracle::Parse(
+                args[0].as_str_unchecked().to_string(),
+                args[0]
+                    .as_str_unchecked()
+                    .trim()
+                    .parse::<f64>()
+                    .ok()
+                    .map(|v| v.to_bits()),
+            ));
             match args[0].as_str_unchecked().trim().parse() {
                 Ok(val) => val,
                 Err(_) => {
